@@ -428,9 +428,13 @@ def focus_sweep(seed, stats, found, ref, probes, pool, t_end, per_class, reps, w
     for bi, b in enumerate(bases):
         fns = [f for f in lists.get(bi, []) if not (f[0].endswith(('parser.py', 'lexer.py')) and not f[0].startswith('sly'))]
         if len(fns) > max_fns:
-            # a seed-dependent sample, so that different seeds cover different functions
+            # a seed-dependent sample, so that different seeds cover different functions; the functions seen writing state
+            # that outlives a call are always in it
             rng2 = random.Random('C20/SWEEPFN/%d/%d' % (seed, bi))
-            fns = sorted(rng2.sample(fns, max_fns))
+            wfk = {tuple(f[:2]) for f in (wfs.get(bi) or {}).get('fns', [])}
+            first = [f for f in fns if tuple(f[:2]) in wfk][:max_fns // 2]
+            rest = [f for f in fns if f not in first]
+            fns = sorted(first + rng2.sample(rest, max_fns - len(first)))
         for f in fns:
             for r in range(reps):
                 spec = _copy.deepcopy(b)
@@ -483,9 +487,34 @@ def focus_sweep(seed, stats, found, ref, probes, pool, t_end, per_class, reps, w
             spec = gen.attach(spec, ref, probes)
             jobs.append((spec['hashseed'], spec))
             directed += 1
+    # state -> inputs: for some kinds of process-wide state only particular inputs can show a difference.  The interpreter's
+    # recursion limit matters to deeply nested statements only, so functions seen changing it get their directed runs on
+    # scenarios of the caller-built deep condition chains (plus whatever scenario they were seen in, above).
+    for prefix, fam_names in STATE_INPUTS.items():
+        fset = {}
+        for wf in wfs.values():
+            for f in wf.get('by_fn', []):
+                if any(p_.startswith(prefix) and not _known_state(p_) for p_ in f[3]):
+                    fset[tuple(f[:3])] = list(f[:3])
+        fam_names = [f for f in fam_names if f in c['families']]
+        if not fset or not fam_names:
+            continue
+        fns = sorted(fset.values())
+        for r in range(wf_runs * 12):
+            bb = gen.gen_sweep_base(seed * 1_000_000 + 950_000 + r // 2, c, ref, fam_names[r % len(fam_names)])
+            ref.ensure([op for cl in bb['clients'] for op in cl])
+            spec = _copy.deepcopy(bb)
+            spec['strategy'] = {'kind': 'focus', 'fns': fns, 'p': (0.15, 0.4, 0.1, 0.3)[r % 4]}
+            spec['sched_seed'] = (bb['sched_seed'] + 15485863 * (r + 1)) & 0x3FFFFFFF
+            spec['directed'] = True
+            spec['novel'] = True
+            spec['state_inputs'] = prefix
+            spec = gen.attach(spec, ref, probes)
+            jobs.append((spec['hashseed'], spec))
+            directed += 1
     # runs directed at state that is not known from the pinned tree go first, everything else in random order
     rng.shuffle(jobs)
-    jobs.sort(key=lambda j: 0 if j[1].get('novel') else 1)
+    jobs.sort(key=lambda j: 0 if j[1].get('state_inputs') else (1 if j[1].get('novel') else 2))
     t_jobs = time.time()
     pool.run_jobs(jobs, on_result=on, deadline=t_end)
     if os.environ.get('VERIF_DEBUG'):
@@ -497,11 +526,14 @@ def focus_sweep(seed, stats, found, ref, probes, pool, t_end, per_class, reps, w
     return len(jobs)
 
 
+STATE_INPUTS = {'interp:recursionlimit': ['built_chains']}
 KNOWN_STATE = ('mindsdb_sql.parser.ast.select.identifier.RESERVED_KEYWORDS',)
 
 
 def _known_state(path):
-    return path in KNOWN_STATE or (path.startswith('renderer[') and path.endswith('.dialect'))
+    # the pinned tree's renderer normalises a 'serial' column of the CREATE TABLE tree it is given in place
+    return path in KNOWN_STATE or (path.startswith('renderer[') and path.endswith('.dialect')) or (
+        path.startswith('tree[') and 'create table' in path.lower() and 'serial' in path.lower())
 
 
 def hash_str(s):
